@@ -362,6 +362,12 @@ func (p *LookupPP) PostProcessBeforeInitialization(c any, name string) (any, err
 	return c, nil
 }
 
+// (When == "early": the lookup is issued while the component's early reference is being produced)
+func (p *LookupPP) GetEarlyBeanReference(c any, name string) (any, error) {
+	p.look("early", name)
+	return c, nil
+}
+
 // RelaxPP is a user post-processor in the style of unittest/component/modified_inject: it declares the
 // points of its own tag optional at run time through Property.SetArg.
 type RelaxPP struct {
